@@ -55,7 +55,7 @@ func c01(r *Report) propMeta {
 
 	// R4 expiry
 	r.Rule("C01.R4", "E3+E4 check-gates-effect")
-	notYet := Cond{Op: "LSS", A: []string{"call:Context.BlockHeight"}, B: []string{"field:Request.RequestHeight", "field:Params.ExpirationBlockCount"}, Want: false, Desc: "not (requestHeight + expirationBlockCount > blockHeight)"}
+	notYet := Cond{Op: "LSS", A: []string{"call:Context.BlockHeight"}, B: []string{"^binop:+", "binops=+", "field:Request.RequestHeight", "field:Params.ExpirationBlockCount"}, Want: false, Desc: "not (requestHeight + expirationBlockCount > blockHeight)"}
 	r.Gate("expired-noresult", oK+"ProcessExpiredRequests", CallEff("Keeper.ResolveExpired"), []Cond{
 		{Op: "BOOL", A: []string{"call:Keeper.HasResult"}, Want: false, Desc: "not HasResult(id)"}, notYet}, GateOpts{})
 	for _, c := range []string{"Keeper.DeleteRequest", "Keeper.DeleteReports", "Keeper.SetRequestLastExpired"} {
